@@ -1012,9 +1012,12 @@ def make_task_func(world: World, tspec: dict) -> Any:
                   deps={s: kw.get(s) for s in roots})
         return d, beh
 
-    def retval(d: Any) -> Any:
+    def retval(d: Any, out: Any = None) -> Any:
         dl = world.server.deliveries[d]
-        return f"ret-{dl.k}-{world.attempt_of.get(d)}-d{d}"
+        v = f"ret-{dl.k}-{world.attempt_of.get(d)}-d{d}"
+        if out is not None and len(out) > 1 and out[1] == "excval":
+            return ValueError(v)          # a function may RETURN an exception object: that is a value, not a failure
+        return v
 
     if tspec.get("sync"):
         def body(*args: Any, **kw: Any) -> Any:
@@ -1028,7 +1031,7 @@ def make_task_func(world: World, tspec: dict) -> Any:
             if out[0] == "reject":
                 from taskiq.exceptions import TaskRejectedError
                 return _SyncOutcome(dur, exc=TaskRejectedError())
-            return _SyncOutcome(dur, value=retval(d))
+            return _SyncOutcome(dur, value=retval(d, out))
     else:
         async def body(*args: Any, **kw: Any) -> Any:  # type: ignore[misc]
             d, beh = enter(args, kw)
@@ -1060,7 +1063,7 @@ def make_task_func(world: World, tspec: dict) -> Any:
                     world.rec("never", d)
                     await world.loop.create_future()
                 how = "ret"
-                return retval(d)
+                return retval(d, out)
             except asyncio.CancelledError:
                 if own_exc:
                     raise          # the body itself raised CancelledError (it awaited something that had been cancelled): an outcome, not a cancellation
@@ -1296,6 +1299,14 @@ def simulate(script: dict, client_fn: Any = None) -> Run:
     gc.disable()
     asyncio.set_event_loop(loop)
     world.harness_ctx = contextvars.copy_context()
+    import warnings
+    wcm = warnings.catch_warnings()
+    wcm.__enter__()
+    if script["config"].get("warn_error"):
+        # a strict deployment: warnings of the categories libraries use for "this is odd" are errors
+        warnings.simplefilter("error", RuntimeWarning)
+        warnings.simplefilter("error", UserWarning)
+        world.fired("warnings_are_errors")
     try:
         main = loop.create_task(_main(world, client_fn), context=world.harness_ctx)
         try:
@@ -1329,6 +1340,7 @@ def simulate(script: dict, client_fn: Any = None) -> Run:
         try:
             loop.shutdown_sim()
         finally:
+            wcm.__exit__(None, None, None)
             asyncio.set_event_loop(None)
             if gc_was:
                 gc.enable()
